@@ -27,7 +27,11 @@ package server
 //@   requires [user] user != nil
 //@   assigns nothing
 //@   ensures [key-file-of-that-user] implies(isnil(result1) && result0 != "./id_rsa.pub", !contains(user.Name, "/") && (result0 == ufs_getwd(0) + "/" + config.Common.CacheDir + "/" + user.Name + ".authorized_keys" || result0 == ufs_homedir(user.Name) + "/.ssh/authorized_keys"))
+// (C14) The handshake callbacks run before the connection holds a slot: they
+// must not wait on a channel (a limiter of their own would be a second,
+// uncounted bound on who gets in).
 //@ func PublicKeyCallback
+//@   no-blocking-ops
 //@   bind keyFile == authorizedKeysFile
 //@   at-call os.ReadFile [reads-that-users-key-file] isnil(keyFile1) && arg0 == keyFile0
 //@   requires [args] !isnil(c) && !isnil(offeredPubKey)
